@@ -8,7 +8,7 @@ from typing import List, Optional
 from .. import terms as tm
 from ..effects import direct_effects, roots
 from ..interp import Interp
-from ..lib import comparisons, fmt, is_call_to, per_element
+from ..lib import comparisons, const_eval, fmt, is_call_to, per_element
 from ..terms import T, const
 
 EXPLANATION = """
@@ -58,12 +58,27 @@ LEN = tm.call(tm.glob("builtins.len"), (RES,))
 REST = tm.sub(RES, T("slice", const(1), tm.NONE, tm.NONE))
 
 
-def _pairwise_eq_keys(lit: T) -> Optional[str]:
-    """'np_arrays'/'stats' if lit == not all(a.keys() == b.keys() for a, b in
-    zip(L, L[1:])) with L = [r.<attr> for r in results]"""
-    if lit.op != "not":
+def _seq_of(t: T):
+    """(attribute path term with the result as hole, source sequence) of a
+    list built per result: [f(r) for r in results] -> (f(HOLE), results)"""
+    pe = per_element(t)
+    if pe is None or pe[3]:
         return None
-    c = lit.args[0]
+    elt, lid, it, _ = pe
+    hole = T("elem", it, lid)
+    return elt.map(lambda x: HOLE if x is hole else None), it
+
+
+HOLE = T("hole")
+FIRST = tm.sub(RES, const(0))
+
+
+def _all_equal(c: T):
+    """c == all(<neighbours or everything-against-the-first are equal>) over
+    a per-result list: returns (f(HOLE), compared through) or None.
+    Forms: all(a == b for a, b in zip(L, L[1:])),
+           all(x == L[0] for x in L[1:]) / all(L[0] == x for x in L),
+           with L = [f(r) for r in results] or f applied in place."""
     if not (is_call_to(c, "builtins.all") and c.args[1] and
             c.args[1][0].op == "comp"):
         return None
@@ -71,49 +86,143 @@ def _pairwise_eq_keys(lit: T) -> Optional[str]:
     if comp.args[3] or len(comp.args[2]) != 1:
         return None
     it, lid = comp.args[2][0]
-    if not (is_call_to(it, "builtins.zip") and len(it.args[1]) == 2):
-        return None
-    A, B = it.args[1]
-    if B is not tm.sub(A, T("slice", const(1), tm.NONE, tm.NONE)):
-        return None
     elt = comp.args[1]
     if not (elt.op == "cmp" and elt.args[0] == "Eq"):
         return None
-    l, r = elt.args[1], elt.args[2]
-    ka = tm.call(tm.attr(T("elem", A, lid), "keys"), (), ())
-    kb = tm.call(tm.attr(T("elem", B, lid), "keys"), (), ())
-    if {l, r} != {ka, kb}:
-        return None
-    pe = per_element(A)
-    if pe is None or pe[3] or pe[2] is not RES or pe[0].op != "attr":
-        return None
-    return pe[0].args[1]
+    sides = [elt.args[1], elt.args[2]]
+    S1 = T("slice", const(1), tm.NONE, tm.NONE)
+    if is_call_to(it, "builtins.zip") and len(it.args[1]) == 2 and \
+            it.args[1][1] is tm.sub(it.args[1][0], S1):
+        A, B = it.args[1]
+        # the compared values: the elements themselves or a function of them
+        ea, eb = T("elem", A, lid), T("elem", B, lid)
+        fa = sides[0].map(lambda x: HOLE if x is ea else None)
+        fb = sides[1].map(lambda x: HOLE if x is eb else None)
+        if fa is not fb:
+            fa = sides[1].map(lambda x: HOLE if x is ea else None)
+            fb = sides[0].map(lambda x: HOLE if x is eb else None)
+        if fa is not fb or not any(x is HOLE for x in fa.walk()):
+            return None
+        so = _seq_of(A)
+        if so is None and A is RES:
+            so = (HOLE, RES)
+        if so is None or so[1] is not RES:
+            return None
+        return fa.map(lambda x: so[0] if x is HOLE else None)
+    # star: every other one against the first
+    el = T("elem", it, lid)
+    for x_side, f_side in (sides, sides[::-1]):
+        if not any(x is el for x in x_side.walk()):
+            continue
+        fx = x_side.map(lambda x: HOLE if x is el else None)
+        seq = it
+        skip_first = False
+        if seq.op == "sub" and seq.args[1] is S1:
+            seq, skip_first = seq.args[0], True
+        so = _seq_of(seq) if seq is not RES else (HOLE, RES)
+        if so is None or so[1] is not RES:
+            continue
+        f = fx.map(lambda x: so[0] if x is HOLE else None)
+        first = f.map(lambda x: FIRST if x is HOLE else None)
+        # the first one, as L[0] or f(results[0])
+        f0 = f_side
+        if f0.op == "sub" and tm.is_const(f0.args[1], 0):
+            so0 = _seq_of(f0.args[0])
+            if so0 is not None and so0[1] is RES:
+                f0 = so0[0].map(lambda x: FIRST if x is HOLE else None)
+                f0 = fx.map(lambda x: f0 if x is HOLE else None) \
+                    if fx is not HOLE else f0
+        if f0 is first:
+            return f
+    return None
 
 
-def _equal_size_lists(c: T) -> bool:
-    """c == all(a == b for a, b in zip(L, L[1:])) with L = the per-result
-    lists of array sizes"""
-    if not (is_call_to(c, "builtins.all") and c.args[1] and
-            c.args[1][0].op == "comp"):
-        return False
-    comp = c.args[1][0]
-    if comp.args[3] or len(comp.args[2]) != 1:
-        return False
-    it, lid = comp.args[2][0]
-    elt = comp.args[1]
-    if not (is_call_to(it, "builtins.zip") and len(it.args[1]) == 2 and
-            it.args[1][1] is tm.sub(it.args[1][0], T(
-                "slice", const(1), tm.NONE, tm.NONE)) and
-            elt.op == "cmp" and elt.args[0] == "Eq"):
-        return False
-    A, B = it.args[1]
-    if {elt.args[1], elt.args[2]} != {T("elem", A, lid), T("elem", B, lid)}:
-        return False
-    pe = per_element(A)
-    return pe is not None and not pe[3] and pe[2] is RES and any(
-        t.op == "attr" and t.args[1] == "size" for t in pe[0].walk()) and \
-        any(t.op == "attr" and t.args[1] == "np_arrays"
-            for t in pe[0].walk())
+def _keys_of(f: T) -> Optional[str]:
+    """'np_arrays' / 'stats' if f(HOLE) is the key set of that dictionary of
+    the result: HOLE.attr.keys(), set(HOLE.attr), HOLE.attr.keys() of a
+    per-result list of the dictionaries"""
+    g = f
+    if is_call_to(g, ".keys") and not g.args[1]:
+        g = tm.method_recv(g)
+    elif is_call_to(g, "builtins.set", "builtins.frozenset",
+                    "builtins.sorted") and len(g.args[1]) == 1:
+        g = g.args[1][0]
+        if is_call_to(g, ".keys") and not g.args[1]:
+            g = tm.method_recv(g)
+    else:
+        return None
+    if g.op == "attr" and g.args[0] is HOLE and g.args[1] in ("np_arrays",
+                                                               "stats"):
+        return g.args[1]
+    return None
+
+
+def _key_mismatch_atoms(live: T):
+    """atoms of a path condition that compare key sets of results:
+    yields (atom, attr, value of the atom that means 'the key sets differ',
+    two_sided)"""
+    out = []
+    for a in tm.atoms(live):
+        f = _all_equal(a)
+        if f is not None and _keys_of(f):
+            out.append((a, _keys_of(f), False, True))
+            continue
+        if a.op == "cmp" and a.args[0] in ("Eq", "NotEq"):
+            # other.attr.keys() != first.attr.keys() inside a loop over the
+            # other results
+            for x, y in ((a.args[1], a.args[2]), (a.args[2], a.args[1])):
+                els = [e for e in x.walk() if e.op == "elem" and
+                       e.args[0] in (REST, RES)]
+                if len(set(map(id, els))) != 1:
+                    continue
+                fx = x.map(lambda t: HOLE if t is els[0] else None)
+                if _keys_of(fx) and \
+                        y is fx.map(lambda t: FIRST if t is HOLE else None):
+                    out.append((a, _keys_of(fx), a.args[0] == "NotEq", True))
+                    break
+    return out
+
+
+def _one_sided_key_tests(live: T):
+    """key-set relations that are not an equality: differences, subset
+    tests, per-key membership loops"""
+    hits = []
+    for a in tm.atoms(live):
+        for x in a.walk():
+            keyish = is_call_to(x, ".keys") or (
+                x.op == "attr" and x.args[1] in ("np_arrays", "stats"))
+            if not keyish:
+                continue
+        txt_ops = [x for x in a.walk() if
+                   (x.op == "binop" and x.args[0] in ("Sub", "BitXor") and
+                    any(is_call_to(y, ".keys") for y in x.walk())) or
+                   (x.op == "cmp" and x.args[0] in ("LtE", "GtE", "Lt", "Gt",
+                                                    "In", "NotIn") and
+                    any(y.op == "attr" and y.args[1] in ("np_arrays",
+                                                         "stats")
+                        for y in x.walk())) or
+                   is_call_to(x, ".issubset", ".issuperset")]
+        for x in txt_ops:
+            attrs = {y.args[1] for y in x.walk() if y.op == "attr" and
+                     y.args[1] in ("np_arrays", "stats")}
+            for at in attrs:
+                hits.append((a, at, x))
+    return hits
+
+
+def _length_case(live: T, n: int) -> Optional[bool]:
+    """truth of a path condition of merge_results for a list of n Results"""
+    env = {RES: tuple(range(n)), LEN: n, REST: tuple(range(1, n))}
+
+    def assign(a: T):
+        if is_call_to(a, "builtins.all") and any(
+                is_call_to(x, "builtins.isinstance") for x in a.walk()):
+            return True
+        try:
+            return bool(const_eval(a, env))
+        except Exception:
+            return None
+    return tm.fold(live, assign)
 
 
 def check(ctx):
@@ -135,8 +244,6 @@ def check(ctx):
                     "found (neither deepcopy(results[0]) nor a single "
                     "returned object)")
         MERGED = cands[0]
-        while MERGED.op in ("upd", "mut", "loopout") and False:
-            MERGED = MERGED.args[0]
         deep = [e for e in r.of_kind("call", "setattr")
                 if e.data.get("result") is MERGED or
                 e.data.get("base") is MERGED][:1]
@@ -160,107 +267,176 @@ def check(ctx):
     ctx.ob("C13.2", f, ok,
            "empty input or non-Result elements raise" if ok else
            "empty / non-Result input is not refused", key="C13.2:refuse")
-    single = [(val, live) for val, live in r.returns
-              if val is tm.sub(RES, const(0))]
-    ok = len(single) == 1 and (LEN, "Eq", const(1)) in comparisons(
-        single[0][1])
-    ctx.ob("C13.2", f, ok,
-           "a single result is returned as is" if ok else
-           "a single input result is not returned unchanged",
-           key="C13.2:single")
+    # one result: returned as it is; decided on the path conditions of the
+    # returns for lists of 1..8 results (whatever the test is spelled like)
+    single = [(val, live) for val, live in r.returns if val is FIRST]
+    others = [(val, live) for val, live in r.returns if val is not FIRST]
+    verdict = None
+    if len(single) == 1:
+        one = _length_case(single[0][1], 1)
+        more = [_length_case(single[0][1], n) for n in range(2, 9)]
+        rest1 = [_length_case(l, 1) for _, l in others]
+        if one is True and all(m is False for m in more) and \
+                all(x is False for x in rest1):
+            verdict = True
+        elif one is False or any(m is True for m in more):
+            verdict = False
+    elif not single and all(_length_case(l, 1) is not False
+                            for _, l in others) and others:
+        verdict = False
+    if verdict is None:
+        ctx.undecidable("C13.2", f, "merge_results: the condition under "
+                        "which results[0] itself is returned is not "
+                        "understood (unknown idiom)")
+    else:
+        ctx.ob("C13.2", f, verdict,
+               "a single result is returned as is (and only then)"
+               if verdict else
+               "a single input result is not returned unchanged / the first "
+               "result itself is returned for longer lists",
+               key="C13.2:single")
     ok = any(val is MERGED for val, _ in r.returns)
     ctx.ob("C13.2", f, ok, "otherwise the merged copy is returned",
            key="C13.2:returns-copy", nontrivial=False)
     # --------------------------------------------------------------- C13.3
     rex = [e for e in raises
            if "ResultException" in (e.data.get("exc_name") or "")]
-    covered = set()
+    covered = {}
     for e in rex:
-        for lit in tm.mk_and(e.live).args if e.live.op == "and" else \
-                [e.live]:
-            a = _pairwise_eq_keys(lit)
-            if a:
-                covered.add(a)
-                ok = e.idx < deep[0].idx
-                ctx.ob("C13.3", e, ok,
-                       f"differing `{a}` key sets raise ResultException "
-                       f"before anything is merged (pairwise equality of "
-                       f"consecutive key sets)", key=f"C13.3:{a}")
+        facts = _key_mismatch_atoms(e.live)
+        for a, attr, differs, _ in facts:
+            # all key sets equal: no refusal; this one differs: refusal
+            # unless an unrelated guard prevents it
+            def all_equal(t):
+                for a2, _, d2, _ in facts:
+                    if t is a2:
+                        return not d2
+                return None
+            quiet = tm.fold(e.live, all_equal) is False
+            fires = tm.fold(e.live, lambda t: differs if t is a else None) \
+                is not False
+            if quiet and fires and e.idx < deep[0].idx:
+                covered[attr] = e
+    one_sided = [h for e in rex for h in _one_sided_key_tests(e.live)]
     for a in ("np_arrays", "stats"):
-        if a not in covered:
+        if a in covered:
+            ctx.ob("C13.3", covered[a], True,
+                   f"differing `{a}` key sets raise ResultException before "
+                   f"anything is merged (equality of the key sets of all "
+                   f"results)", key=f"C13.3:{a}")
+            continue
+        os_ = [h for h in one_sided if h[1] == a]
+        if os_:
             ctx.ob("C13.3", f, False,
-                   f"no ResultException depends on the pairwise equality of "
-                   f"the `{a}` key sets of consecutive results: inputs "
-                   f"whose {a} keys differ (e.g. a later result with an "
-                   f"extra key) are merged silently",
-                   key=f"C13.3:{a}")
-    # merging only after both checks passed
+                   f"the `{a}` key sets are only compared one-sidedly "
+                   f"({fmt(os_[0][2])[:80]}): a result with an extra key is "
+                   f"merged silently", key=f"C13.3:{a}")
+        elif covered or not rex:
+            ctx.ob("C13.3", f, False,
+                   f"no ResultException depends on the equality of the "
+                   f"`{a}` key sets of the results: inputs whose {a} keys "
+                   f"differ (e.g. a later result with an extra key) are "
+                   f"merged silently", key=f"C13.3:{a}")
+        else:
+            ctx.undecidable("C13.3", f, f"refusal of differing `{a}` key "
+                            f"sets: the test guarding the ResultException "
+                            f"is not understood (unknown idiom)")
     # --------------------------------------------------------------- C13.4
-    sets = [e for e in r.of_kind("setattr")
-            if e.data["base"] is MERGED and e.data["name"] == "stats"]
-    loop_res = None
-    for e in r.of_kind("loop"):
-        if e.data["iter"] is REST:
-            loop_res = e
-    if loop_res is not None:
-        # stores before the accumulation loop only initialise the
-        # accumulator (a copy of the first result's dict)
-        inits = [e for e in sets if e.idx < loop_res.idx]
-        for e in inits:
-            v = e.data["value"]
-            src = tm.attr(tm.sub(RES, const(0)), "stats")
-            okc = is_call_to(v, "builtins.dict", "copy.copy", "copy.deepcopy",
-                             ".copy") and any(x is src for x in v.walk())
-            ctx.ob("C13.4", e, bool(okc),
-                   "statistics accumulator starts as a copy of the first "
-                   "result's statistics" if okc else
-                   f"statistics accumulator starts as {fmt(v)[:80]}",
-                   key="C13.4:stats-init")
-        sets = [e for e in sets if e.idx > loop_res.idx]
-    ctx.require(len(sets) >= 2, "merge_results: stats sum / average stores "
-                "not found (unknown idiom)")
-    s_sum, s_avg = sets[0], sets[-1]
-    ok = loop_res is not None and loop_res.data["lid"] in s_sum.loops
-    ctx.ob("C13.4", s_sum, ok,
-           "statistics are accumulated over results[1:] in input order" if ok
-           else f"statistics are not accumulated over results[1:]",
-           key="C13.4:stats-loop")
-    okv = False
-    v_ = s_sum.data["value"]
-    if v_.op == "comp" and v_.args[0] == "dict" and ok:
-        (it, lid), = v_.args[2]
-        key, val = v_.args[1].args
-        el = T("elem", it, lid)
-        other = T("elem", REST, loop_res.data["lid"])
-        src_ = tm.method_recv(it) if is_call_to(it, ".items") else None
-        own_stats = src_ is tm.attr(MERGED, "stats") or (
-            src_ is not None and src_.op == "loopvar" and
-            str(src_.args[0]).endswith(".stats") and
-            src_.args[1] == loop_res.data["lid"])
-        okv = own_stats and key is tm.sub(el, const(0)) and \
-            val.op == "binop" and val.args[0] == "Add" and \
-            {val.args[1], val.args[2]} == {
-                tm.sub(el, const(1)),
-                tm.sub(tm.attr(other, "stats"), key)}
-    ctx.ob("C13.4", s_sum, okv,
-           "statistic[k] += next_result.stats[k] for every key of the copy"
-           if okv else f"statistics sum is {fmt(v_)}",
-           key="C13.4:stats-sum", value=fmt(v_))
-    oka = False
-    v_ = s_avg.data["value"]
-    if v_.op == "comp" and v_.args[0] == "dict" and not s_avg.loops:
-        (it, lid), = v_.args[2]
-        key, val = v_.args[1].args
-        el = T("elem", it, lid)
-        oka = key is tm.sub(el, const(0)) and val.op == "binop" and \
-            val.args[0] == "Div" and val.args[1] is tm.sub(el, const(1)) \
-            and val.args[2] is LEN
-    ctx.ob("C13.4", s_avg, oka,
-           "statistics are divided by len(results) (arithmetic mean of all "
-           "N inputs)" if oka else
-           f"statistics average is {fmt(v_)} — the divisor must be the "
-           f"number of input results", key="C13.4:stats-divisor",
-           value=fmt(v_))
+    from ..reduce import NotUnderstood, KEY, hoist, reduction, value_at
+    from ..lib import linear
+    loops = {e.data["lid"]: e.data["iter"] for e in r.of_kind("loop")}
+
+    def judge(what, scalar, want_kind, name, site, key_sum, key_div):
+        """scalar = value under a generic key; want_kind 'sum' (divided by
+        N) or 'cat' (not divided)"""
+        alts = [scalar]
+        for _ in range(4):
+            alts = [b_ for a_ in alts for b_ in tm.strip_ite(hoist(a_))]
+        verdicts = []
+        for alt in alts:
+            red = reduction(alt)
+            if red is None:
+                verdicts.append((None, f"{what}: value under a key is "
+                                 f"{fmt(alt)[:120]}"))
+                continue
+            it = loops.get(red["lid"])
+            other = T("elem", it, red["lid"]) if it is not None else None
+            first_v = tm.sub(tm.attr(MERGED, name), KEY)
+            raw_first = tm.sub(tm.attr(FIRST, name), KEY)
+            want_add = tm.sub(tm.attr(other, name), KEY) if other is not \
+                None else None
+            if red["kind"] != want_kind:
+                verdicts.append((False, f"{what}: the values are "
+                                 f"{'appended' if red['kind'] == 'cat' else 'added up'}"
+                                 f" — expected "
+                                 f"{'np.append' if want_kind == 'cat' else 'a sum'}"))
+                continue
+            if it is not REST:
+                verdicts.append((False if it is RES else None,
+                                 f"{what}: accumulated over {fmt(it)[:60]}, "
+                                 f"not over results[1:] onto the first"))
+                continue
+            if red["init"] not in (first_v, raw_first):
+                verdicts.append((None, f"{what}: accumulation starts at "
+                                 f"{fmt(red['init'])[:80]}"))
+                continue
+            if red["addend"] is not want_add:
+                verdicts.append((None, f"{what}: each step adds "
+                                 f"{fmt(red['addend'])[:80]}"))
+                continue
+            if want_kind == "cat" and red["reversed"]:
+                verdicts.append((False, f"{what}: np.append(next, "
+                                 f"accumulated) — the arrays are "
+                                 f"concatenated in reverse input order"))
+                continue
+            verdicts.append((True, red))
+        if any(v is None for v, _ in verdicts) and \
+                not any(v is False for v, _ in verdicts):
+            ctx.undecidable("C13.4", site,
+                            [w for v, w in verdicts if v is None][0] +
+                            " (unknown idiom)")
+            return
+        bad_ = [w for v, w in verdicts if v is False]
+        ctx.ob("C13.4", site, not bad_,
+               f"{what}: value[k] = first[k] "
+               f"{'+' if want_kind == 'sum' else '++'} next[k] ... over "
+               f"results[1:] in input order" if not bad_ else bad_[0],
+               key=key_sum)
+        if bad_:
+            return
+        divs = [red["divisor"] for _, red in verdicts]
+        if want_kind == "cat":
+            ok_ = all(d is None for d in divs)
+            ctx.ob("C13.4", site, ok_,
+                   f"{what}: appended arrays are not divided" if ok_ else
+                   f"{what}: appended arrays are rescaled by "
+                   f"{fmt([d for d in divs if d is not None][0])}",
+                   key=key_div)
+            return
+        lin = [linear(d) if d is not None else None for d in divs]
+        n_forms = ({LEN: 1}, {tm.call(tm.glob("builtins.len"), (REST,), ()):
+                              1, 1: 1})
+        ok_ = all(l in n_forms for l in lin)
+        ctx.ob("C13.4", site, ok_,
+               f"{what}: the sum is divided by len(results) (arithmetic "
+               f"mean of all N inputs)" if ok_ else
+               f"{what}: the sum is divided by "
+               f"{fmt(divs[0]) if divs[0] is not None else 'nothing'} — the "
+               f"divisor must be the number of input results",
+               key=key_div)
+
+    stats_v = r.attrs.get((MERGED, "stats"))
+    ctx.require(stats_v is not None, "merge_results: the merged statistics "
+                "are never stored (unknown idiom)")
+    try:
+        sc = value_at(stats_v)
+    except NotUnderstood as ex:
+        sc = None
+        ctx.undecidable("C13.4", f, f"statistics: construction not "
+                        f"understood: {ex} (unknown idiom)")
+    if sc is not None:
+        judge("statistics", sc, "sum", "stats", f, "C13.4:stats-sum",
+              "C13.4:stats-divisor")
     # the strategy decision: all per-result array-size lists are equal
     eqs = []
     seen = set()
@@ -275,70 +451,47 @@ def check(ctx):
             if id(a_) in seen:
                 continue
             seen.add(id(a_))
-            if _equal_size_lists(a_):
+            fe = _all_equal(a_)
+            if fe is not None and any(
+                    t.op == "attr" and t.args[1] == "size"
+                    for t in fe.walk()) and any(
+                    t.op == "attr" and t.args[1] == "np_arrays"
+                    for t in fe.walk()):
                 eqs.append(a_)
-    ctx.require(len(eqs) >= 1, "merge_results: no decision on "
-                "all(a == b for a, b in zip(size_lists, size_lists[1:])) "
-                "found (unknown merge-strategy idiom)")
+    ctx.require(len(eqs) >= 1, "merge_results: no decision on whether all "
+                "per-result lists of array sizes are equal found (unknown "
+                "merge-strategy idiom)")
     EQ = eqs[0]
     ctx.ob("C13.4", f, True,
            "the merge strategy is decided by whether all per-result "
            "array-size lists are equal", key="C13.4:strategy")
-    other = T("elem", REST, loop_res.data["lid"]) if loop_res else None
-
-    def operands(v):
-        return v.args[1] if v.op == "call" else (v.args[1], v.args[2])
     for equal in (True, False):
         rc = Interp(prog, assume=lambda t, v=equal: v if t is EQ
                     else None).run(f)
         ctx.analysed["configs"] += 1
         mode = "equal sizes" if equal else "different sizes"
-        items = [e for e in rc.of_kind("setitem")
-                 if not tm.is_const(e.live, False) and any(
-                     x.op == "attr" and x.args[1] == "np_arrays"
-                     for x in e.data["base"].walk())]
-        lid = loop_res.data["lid"] if loop_res else -1
-        acc = [e for e in items if lid in e.loops]
-        fin = [e for e in items if lid not in e.loops]
-        want = "numpy.add" if equal else "numpy.append"
-        ok = len(acc) == 1 and is_call_to(acc[0].data["value"], want)
-        if ok:
-            e = acc[0]
-            a, b_ = operands(e.data["value"])[:2]
-            ok = a.op == "sub" and tm.is_const(a.args[1], 1) and \
-                a.args[0].op == "elem" and b_.op == "sub" and \
-                b_.args[0] is tm.attr(other, "np_arrays") and \
-                b_.args[1] is tm.sub(a.args[0], const(0)) and \
-                e.data["index"] is tm.sub(a.args[0], const(0))
-        nm = want.split(".")[1]
-        ctx.ob("C13.4", acc[0] if acc else f, ok,
-               f"[{mode}] arrays: merged[k] = np.{nm}(merged[k], "
-               f"next.np_arrays[k]) (accumulated first, next second)" if ok
-               else f"[{mode}] arrays are accumulated as "
-               f"{[fmt(e.data['value']) for e in acc]} — expected "
-               f"np.{nm}(accumulated array, next result's array of the "
-               f"same key)", key=f"C13.4:array-{nm}")
-        if equal:
-            ok = len(fin) == 1
-            if ok:
-                v = fin[0].data["value"]
-                ok = (is_call_to(v, "numpy.divide") or
-                      (v.op == "binop" and v.args[0] == "Div")) and \
-                    operands(v)[1] is LEN and \
-                    fin[0].idx > max(e.idx for e in acc)
-            ctx.ob("C13.4", fin[0] if fin else f, ok,
-                   "[equal sizes] summed arrays are divided by "
-                   "len(results) after the accumulation" if ok else
-                   f"[equal sizes] array average is "
-                   f"{[fmt(e.data['value']) for e in fin]} — expected "
-                   f"sum / len(results)", key="C13.4:array-divisor")
-        else:
-            ctx.ob("C13.4", fin[0] if fin else f, not fin,
-                   "[different sizes] appended arrays are not divided"
-                   if not fin else
-                   f"[different sizes] appended arrays are rescaled: "
-                   f"{fmt(fin[0].data['value'])}",
-                   key="C13.4:append-not-divided")
+        loops = {e.data["lid"]: e.data["iter"] for e in rc.of_kind("loop")}
+        arr_v = rc.attrs.get((MERGED, "np_arrays"))
+        nm = "add" if equal else "append"
+        if arr_v is None:
+            ctx.ob("C13.4", f, False, f"[{mode}] the arrays of the merged "
+                   f"result are never written: they stay the first "
+                   f"result's", key=f"C13.4:array-{nm}")
+            continue
+        try:
+            sc = value_at(arr_v)
+        except NotUnderstood as ex:
+            ctx.undecidable("C13.4", f, f"[{mode}] arrays: construction "
+                            f"not understood: {ex} (unknown idiom)")
+            continue
+        judge(f"[{mode}] arrays", sc, "sum" if equal else "cat", "np_arrays",
+              f, f"C13.4:array-{nm}",
+              "C13.4:array-divisor" if equal else
+              "C13.4:append-not-divided")
+    loop_res = None
+    for e in r.of_kind("loop"):
+        if e.data["iter"] is REST:
+            loop_res = e
     # --------------------------------------------------------------- C13.5
     first_info = tm.attr(tm.sub(RES, const(0)), "info")
 
